@@ -2,7 +2,9 @@ package checks
 
 import (
 	"bytes"
+	"errors"
 	"fmt"
+	"github.com/hugelgupf/p9/linux"
 	"io"
 	"runtime"
 	"strings"
@@ -149,12 +151,26 @@ func (cc *c10Client) do(i int, call c10call) string {
 		if err := f.FSync(); err != nil {
 			return "error:" + err.Error()
 		}
+	case 'E':
+		// a call the server answers with Rlerror(errno = function of the fid):
+		// the caller must get exactly that errno, not another call's
+		_, _, _, err := f.GetAttr(p9.AttrMask{BTime: true, Gen: true})
+		var le linux.Errno
+		if err == nil {
+			return fmt.Sprintf("GetAttr(fid %d) succeeded although the server answered Rlerror", fid)
+		}
+		if !errors.As(err, &le) {
+			return "error:" + err.Error() // not an errno: the call failed for another reason
+		}
+		if uint64(le) != fakesrv.ErrnoFor(fid) {
+			return fmt.Sprintf("GetAttr(fid %d) returned errno %d, the reply to its own request carried %d: another request's error", fid, uint64(le), fakesrv.ErrnoFor(fid))
+		}
 	}
 	return ""
 }
 
 func c10Calls(r *ev.Rand, k int) []c10call {
-	kinds := []byte{'R', 'R', 'G', 'D', 'L', 'S', 'Y'}
+	kinds := []byte{'R', 'R', 'G', 'D', 'L', 'S', 'Y', 'E', 'E'}
 	var l []c10call
 	for i := 0; i < k; i++ {
 		l = append(l, c10call{kind: ev.Pick(r, kinds), off: uint64(r.Intn(1000)), n: 1 + r.Intn(3000)})
